@@ -24,6 +24,7 @@ type Disk struct {
 type DiskOpts struct {
 	ErrBefore int    // permille: operation fails without effect
 	ErrOnly   string // when set: only operations of these kinds fail ("S", "D", "L", "I")
+	AliasLoad bool   // Load hands out the stored slice itself, as a map-backed Persistence (the library's own volatile one included) does; the contract does not promise a copy
 	ErrAfter  int    // permille: operation takes effect but reports failure (Save/Delete)
 	Shuffle   bool
 	// CorruptLoad: permille of Load results altered in one byte or
@@ -159,7 +160,10 @@ func (s *Sim) diskAction(p *park) Action {
 				if v, ok := d.M[op.key]; ok {
 					op.val = append([]byte{}, v...)
 					rec.Val = op.val
-					if len(v) > 0 && w.FaultOK() && w.Tape.Flip("ldmg", d.Opts.CorruptLoad) {
+					if d.Opts.AliasLoad {
+						op.val = v
+					}
+					if len(v) > 0 && !d.Opts.AliasLoad && w.FaultOK() && w.Tape.Flip("ldmg", d.Opts.CorruptLoad) {
 						w.Fault("load_damaged")
 						if fl, ok := w.X.(*Flow); ok {
 							fl.LoadDamage++
